@@ -21,9 +21,9 @@ from harness.x02_env import Env, poxenv
 import pox.openflow.libopenflow_01 as of
 from pox.openflow.flow_table import TableEntry
 
-K_MAX = 4
+K_MAX = 5
 # object -> (in_port, dl_type, priority); 0 = wildcarded.  Same table as MCFlowSync!MCMatch / MCPrio.
-OBJ = {1: (1, 0, 5), 2: (0, 0, 5), 3: (1, 0, 5), 4: (1, 8, 7)}
+OBJ = {1: (1, 0, 5), 2: (0, 0, 5), 3: (1, 0, 5), 4: (1, 8, 7), 5: (1, 0, 7)}
 DL_TYPE = {8: 0x0800}
 CMD = {0: "add", 3: "del", 4: "dels"}
 
